@@ -73,7 +73,7 @@ def validate(report, *, before: dict, after: dict, logs: list, sast_origins=("so
         cm = r["codemod"]
         for key in ("summary", "description"):
             if not str(r.get(key, "")).strip():
-                out.append((f"empty-{key}", f"{cm}: empty {key}"))
+                out.append((f"empty-{key}:{cm}", f"{cm}: the result's {key} is empty"))
         if "references" not in r:
             out.append(("no-references", f"{cm}: result carries no references list"))
         changed = []
